@@ -124,6 +124,21 @@ def step (w : W) (ws : List String) : String × W :=
       | some di, some l => let d : Doc := w.docs[di]!; s!"r{r}={d.show (d.get l)} z={d.size (d.get l)} n={d.nesting (d.get l)} "
       | _, _ => s!"r{r}=? z=0 n=0 ")
     (String.join ds ++ String.join rs, w)
+  | ["rd2", r, t1, a1, t2, a2] =>
+    -- read-only access through two chained subscripts (member `m <hexkey>` or element `e <index>`): nothing changes; the value seen is shown
+    let s := w.refs[r.toNat!]!
+    match s.doc, s.loc with
+    | some di, some l =>
+      let d := w.docs[di]!
+      let sub (l : Loc) (t a : String) : Option Loc :=
+        if t == "m" then (d.findKey l (unhex a)).map (fun p => Loc.slot p.2)
+        else match d.get l with
+          | .arr h _ => ((d.chain h)[a.toNat!]?).map Loc.slot
+          | _ => none
+      match (sub l t1 a1).bind (fun l1 => sub l1 t2 a2) with
+      | some l2 => (d.show (d.get l2), w)
+      | none => ("?", w)
+    | _, _ => ("?", w)
   | ["deserj", r, lim, hex] => deserInto w true r lim hex
   | ["deserm", r, lim, hex] => deserInto w false r lim hex
   | ["failat", d, k] =>
